@@ -3,11 +3,12 @@
 # quick tier of the named checks (default: the property's own), records verdicts in seeded/Cxx/detection.json,
 # and always restores /repo (git checkout -- .).
 id="$1"; shift
+D=${SEEDDEST:-/verif/seeded}
 checks="${*:-$id}"
 cd /verif
 [ -z "$(git -C /repo status --porcelain)" ] || { echo "/repo not clean"; exit 2; }
 trap 'git -C /repo checkout -- .' EXIT INT TERM
-git -C /repo apply /verif/seeded/$id/patch.diff || exit 2
+git -C /repo apply $D/$id/patch.diff || exit 2
 res=""
 for c in $checks; do
   s=$(date +%s); out=$(./check $c --tier quick 2>&1); rc=$?; e=$(date +%s)
@@ -17,10 +18,10 @@ for c in $checks; do
   res="$res{\"check\":\"$c\",\"tier\":\"quick\",\"verdict\":\"$v\",\"seconds\":$((e-s)),\"first_violation\":\"$sig\"},"
 done
 git -C /repo checkout -- .
-python3 - "$id" "[${res%,}]" <<'PY'
+python3 - "$id" "[${res%,}]" "$D" <<'PY'
 import json,sys,os
-id,res=sys.argv[1],json.loads(sys.argv[2])
-p=f'/verif/seeded/{id}/detection.json'
+id,res,D=sys.argv[1],json.loads(sys.argv[2]),sys.argv[3]
+p=f'{D}/{id}/detection.json'
 old=json.load(open(p)) if os.path.exists(p) else []
 old=[o for o in old if o['check'] not in [r['check'] for r in res]]+res
 json.dump(old,open(p,'w'),indent=1)
